@@ -265,6 +265,108 @@ def blockFrame (body : List Stmt) : St :=
   let st := if special "super" body then declParam "super" st else st
   fsvs [] body st
 
+/-! ## Which names the code generator asks `frame.symbols.ref(name)` for (an `AssertionError` if there is none)
+
+  `needs s`: names visited *in the frame the statement occurs in* (compiler.py visit_Name:1640, visit_NSRef:1664,
+  visit_Assign:1595, visit_Macro:1345, visit_Import:1114, visit_FromImport:1136); `refOk` follows the frames like `cg`.
+  The filter of a set block is visited in the block's frame (compiler.py:1625) although the analysis of that frame
+  covers only the body (idtracking.py:188-190). -/
+
+def tgtName : Tgt → Name
+  | .store n => n
+  | .nsref n => n
+
+mutual
+def needs : Stmt → List Name
+  | .output e => e
+  | .ite t b ei el => t ++ needss b ++ needss ei ++ needss el
+  | .for_ _ it _ _ _ _ => it
+  | .assign ts e => e ++ ts.map tgtName
+  | .assignBlock t _ _ => [tgtName t]
+  | .with_ _ vs _ => vs
+  | .macro_ n _ _ _ => [n]
+  | .callBlock c _ _ _ => c
+  | .filterBlock _ _ => []
+  | .block _ _ _ => []
+  | .ref _ _ e binds => e ++ binds
+  | .scope _ => []
+  | .evalctx o b => o ++ needss b
+def needss : List Stmt → List Name
+  | [] => []
+  | s :: ss => needs s ++ needss ss
+end
+
+def allRef (outer : List Name) (st : St) (ns : List Name) : Bool := ns.all (hasRef outer st)
+
+mutual
+def refOk (outer : List Name) (st : St) : Stmt → Bool
+  | .output e => allRef outer st e
+  | .ite t b ei el => allRef outer st t && refOks outer st b && refOks outer st ei && refOks outer st el
+  | .for_ tg it body els test recursive =>
+    let o' := inner outer st
+    let lf := loopFrame o' tg body els recursive
+    let ef := elseFrame o' els
+    allRef outer st it && allRef o' lf tg &&
+    (match test with | some t => allRef o' (testFrame o' tg t) t | none => true) &&
+    refOks o' lf body && refOks o' ef els
+  | .assign ts e => allRef outer st (e ++ ts.map tgtName)
+  | .assignBlock t flt body =>
+    let o' := inner outer st
+    let f := plainFrame o' body
+    allRef outer st [tgtName t] && allRef o' f flt && refOks o' f body
+  | .with_ tg vs body =>
+    let o' := inner outer st
+    let f := withFrame o' tg body
+    allRef outer st vs && allRef o' f tg && refOks o' f body
+  | .macro_ nm args d body =>
+    let o' := inner outer st
+    let f := macroFrame o' args d body
+    allRef outer st [nm] && allRef o' f (args ++ d) && refOks o' f body
+  | .callBlock c args d body =>
+    let o' := inner outer st
+    let f := macroFrame o' args d body
+    allRef outer st c && allRef o' f (args ++ d) && refOks o' f body
+  | .filterBlock flt body =>
+    let o' := inner outer st
+    let f := filterFrame o' flt body
+    allRef o' f flt && refOks o' f body
+  | .block _ _ _ => true
+  | .ref _ _ e binds => allRef outer st (e ++ binds)
+  | .scope body =>
+    let o' := inner outer st
+    let f := plainFrame o' body
+    refOks o' f body
+  | .evalctx o b => allRef outer st o && refOks outer st b
+def refOks (outer : List Name) (st : St) : List Stmt → Bool
+  | [] => true
+  | s :: ss => refOk outer st s && refOks outer st ss
+end
+
+/- no set block (at any depth, block bodies included) has a filter that mentions a name -/
+mutual
+def nf : Stmt → Bool
+  | .output _ => true
+  | .ite _ b ei el => nfs b && nfs ei && nfs el
+  | .for_ _ _ b el _ _ => nfs b && nfs el
+  | .assign _ _ => true
+  | .assignBlock _ f b => f.isEmpty && nfs b
+  | .with_ _ _ b => nfs b
+  | .macro_ _ _ _ b => nfs b
+  | .callBlock _ _ _ b => nfs b
+  | .filterBlock _ b => nfs b
+  | .block _ _ b => nfs b
+  | .ref _ _ _ _ => true
+  | .scope b => nfs b
+  | .evalctx _ b => nfs b
+def nfs : List Stmt → Bool
+  | [] => true
+  | s :: ss => nf s && nfs ss
+end
+
+/-- the whole module compiles without `Symbols.ref` failing: root function and every block function -/
+def refOkTemplate (t : List Stmt) : Bool :=
+  refOks [] (rootFrame t) t && (blocksOfs t).all (fun b => refOks [] (blockFrame b.2.2) b.2.2)
+
 /-! ## every `resolve(name)` the (tracking) code generator emits below a statement of the frame `(outer, st)` -/
 
 mutual
